@@ -164,6 +164,37 @@ def exhaustive(gates, quick):
             i, observe(g, ["init", "cond", "print", "while"], gates)))
 
 
+def string_effect_cases():
+    """string-valued operands with an observable effect (CbRef has no string values: the expected trace is computed here):
+    every call exactly once, left to right, whatever the string it returns — the empty string included"""
+    LAB = ("string lab(int k) {\n    println(\"call\", k);\n    if (k == 0) {\n        return \"\";\n    }\n    if (k == 1) {\n        return \"a\";\n    }\n    return \"bc\";\n}\n"
+           "void show(string p, string q) {\n    println(\"show[\", p, \"][\", q, \"]\");\n}\nstring both(int i, int j) {\n    return lab(i) + lab(j);\n}\n")
+    val = {0: "", 1: "a", 2: "bc"}
+    cases = []
+
+    def c(cid, body, out):
+        cases.append({"id": cid, "program": LAB + "int main() {\n    int t = 1;\n    int z = 0;\n" + body + "    println(\"END\");\n    return 0;\n}\n",
+                      "expect_class": "ok", "expect_stdout": out + "END\n"})
+    for i in (0, 1, 2):
+        c("decl-%d" % i, "    string b = lab(%d);\n    println(\"[\", b, \"]\");\n" % i, "call %d\n[ %s ]\n" % (i, val[i]))
+        c("const-decl-%d" % i, "    const string b = lab(%d);\n    println(\"[\", b, \"]\");\n" % i, "call %d\n[ %s ]\n" % (i, val[i]))
+        c("assign-%d" % i, "    string b = \"q\";\n    b = lab(%d);\n    println(\"[\", b, \"]\");\n" % i, "call %d\n[ %s ]\n" % (i, val[i]))
+        c("decl-arg-%d" % i, "    string b = lab(lab(%d) == \"\" ? 0 : 2);\n    println(\"[\", b, \"]\");\n" % i,
+          "call %d\ncall %d\n[ %s ]\n" % (i, 0 if val[i] == "" else 2, val[0 if val[i] == "" else 2]))
+        for j in (0, 1, 2):
+            c("concat-decl-%d%d" % (i, j), "    string d = lab(%d) + lab(%d);\n    println(\"[\", d, \"]\");\n" % (i, j), "call %d\ncall %d\n[ %s ]\n" % (i, j, val[i] + val[j]))
+            c("concat-assign-%d%d" % (i, j), "    string d = \"q\";\n    d = lab(%d) + lab(%d);\n    println(\"[\", d, \"]\");\n" % (i, j), "call %d\ncall %d\n[ %s ]\n" % (i, j, val[i] + val[j]))
+            # (a string-returning call written directly as an argument is rejected by the implementation — "cannot pass non-string
+            #  expression to string parameter" — and is not generated)
+            c("ret-concat-%d%d" % (i, j), "    string d = both(%d, %d);\n    println(\"[\", d, \"]\");\n" % (i, j), "call %d\ncall %d\n[ %s ]\n" % (i, j, val[i] + val[j]))
+            c("eq-%d%d" % (i, j), "    if (lab(%d) == lab(%d)) {\n        println(\"same\");\n    } else {\n        println(\"diff\");\n    }\n" % (i, j),
+              "call %d\ncall %d\n%s\n" % (i, j, "same" if val[i] == val[j] else "diff"))
+            for cond in ("t", "z"):
+                pick = i if cond == "t" else j
+                c("tern-decl-%s%d%d" % (cond, i, j), "    string e = %s ? lab(%d) : lab(%d);\n    println(\"[\", e, \"]\");\n" % (cond, i, j), "call %d\n[ %s ]\n" % (pick, val[pick]))
+    return cases
+
+
 def main(a):
     c = RefCheck(PID, a, ["CbProofs", "CbProps.C03"], THEOREMS)
     if not c.build():
@@ -179,6 +210,7 @@ def main(a):
     for k in range(n):
         s, st = gen_core.gen_program(a.seed, 31, k, c.gates, size=18, features={"effect_leaves": True})
         progs.append(s)
+    c.raw_suite("string-effects", string_effect_cases(), max_report=4)
     c.suite("random-effectful", progs, nontrivial=lambda r: hash(r.stdout) if r.stdout.count("t ") > 1 else None)
     return c.finish(
         rule="operands are calls t(k,v) that print k: the printed sequence is the evaluation order. exhaustive: every "
